@@ -300,7 +300,8 @@ impl VTree {
 //%% @ret r
 //%% @rewrite 1 /\[x\] => BTree::Leaf\(\*x\),/ => _ if order.len() == 1 => { let x = &order[0]; BTree::Leaf(*x) }
 //%% @rewrite 1 /\[(\w+), rest @ \.\.\] => \{/ => _ if order.len() >= 2 => { let \1 = &order[0]; let rest = vstd::slice::slice_subrange(order, 1, order.len());
-//%% @rewrite 1 /\[\] => panic!\("invalid right_linear on empty list"\),/ => _ => vstd::pervasive::unreached(),
+//%% @rewrite 1 /\[\] => panic!\("invalid right_linear on empty list"\),/ => _ if order.len() == 0 => vstd::pervasive::unreached(),
+//%% @rewrite 1 /\n        \}\n    \}$/ => \n            _ => vstd::pervasive::unreached(),\n        }\n    }
 //%% @spec
         requires order@.len() >= 1,
         ensures vleaves(r) == order@,
@@ -313,7 +314,8 @@ impl VTree {
 //%% @ret r
 //%% @rewrite 1 /\[x\] => BTree::Leaf\(\*x\),/ => _ if order.len() == 1 => { let x = &order[0]; BTree::Leaf(*x) }
 //%% @rewrite 1 /\[rest @ \.\., (\w+)\] => \{/ => _ if order.len() >= 2 => { let \1 = &order[order.len() - 1]; let rest = vstd::slice::slice_subrange(order, 0, order.len() - 1);
-//%% @rewrite 1 /\[\] => panic!\("invalid left_linear on empty list"\),/ => _ => vstd::pervasive::unreached(),
+//%% @rewrite 1 /\[\] => panic!\("invalid left_linear on empty list"\),/ => _ if order.len() == 0 => vstd::pervasive::unreached(),
+//%% @rewrite 1 /\n        \}\n    \}$/ => \n            _ => vstd::pervasive::unreached(),\n        }\n    }
 //%% @spec
         requires order@.len() >= 1,
         ensures vleaves(r) == order@,
